@@ -17,6 +17,8 @@ structure ToyS where
   fl : Option Nat
   n : Nat
   acc : Nat
+  tag : Nat := 0
+  info : Bool := false      -- predict reports `100*tag+n` through CobaContext.learning_info
 
 structure ToyEnv where
   data : List Nat          -- contexts a fresh read yields
@@ -27,6 +29,7 @@ structure ToyEnv where
 structure ToyLrn where
   init : ToyS
   params : Option String
+  copyable : Bool := true   -- false: the object holds a generator, `deepcopy` raises
 
 structure ToyVal where
   seed : Option Nat
@@ -34,6 +37,8 @@ structure ToyVal where
   learn : Bool
   params : Option String
   skip : Option Nat := none   -- learners with this `mult` get no rows (and are not touched)
+  mode : Nat := 0             -- 0: ignores learning_info; 1: clears it at the start and flushes it into every row;
+                              -- 2: flushes without clearing at the start (not process-local clean)
 
 abbrev Row := List Nat
 
@@ -61,18 +66,55 @@ def toParams : Option String → Except Err String
   | some p => .ok p
   | none => .error .raised
 
-def dfltS : ToyS := ⟨0, none, none, 0, 0⟩
+def dfltS : ToyS := ⟨0, none, none, 0, 0, 0, false⟩
 def dfltEnv : ToyEnv := ⟨[], false, none, none⟩
-def dfltVal : ToyVal := ⟨none, none, true, none, none⟩
+def dfltVal : ToyVal := ⟨none, none, true, none, none, 0⟩
 
 def mkComps (envs : List ToyEnv) (lrns : List ToyLrn) (vals : List ToyVal) : Comps ToyS String Row :=
   { envParams := fun e => toParams ((envs.getD e dfltEnv).params)
-    lrnParams := fun l => toParams ((lrns.getD l ⟨dfltS, none⟩).params)
+    lrnParams := fun l => toParams ((lrns.getD l ⟨dfltS, none, true⟩).params)
     valParams := fun v => toParams ((vals.getD v dfltVal).params)
     chunkKey := fun e => (envs.getD e dfltEnv).chunk
-    init := fun l => (lrns.getD l ⟨dfltS, none⟩).init
+    init := fun l => (lrns.getD l ⟨dfltS, none, true⟩).init
     valSeed := fun v => (vals.getD v dfltVal).seed
     eval := fun v e s seed => toyEval (envs.getD e dfltEnv) (vals.getD v dfltVal) s seed }
+
+/-- the process state of the toy world: what is in `CobaContext.learning_info['li']` -/
+abbrev ToyG := Option Nat
+
+/-- the loop of `ToyEval.evaluate` with the process-global info channel -/
+def toyLoopP (learn : Bool) (mode : Nat) (vfail : Option Nat) (seed : Nat) :
+    List Nat → Nat → ToyS → ToyG → List Row → (Except Err (List Row) × ToyS) × ToyG
+  | [], _, s, σ, rows => ((.ok rows.reverse, s), σ)
+  | x :: xs, k, s, σ, rows =>
+    if s.fp = some s.n then ((.error .raised, s), σ) else
+    let p := x * s.mult + 7 * s.acc + s.n
+    let σ1 := if s.info then some (100 * s.tag + s.n) else σ
+    if learn && s.fl = some s.n then ((.error .raised, s), σ1) else
+    let s' := if learn then { s with n := s.n + 1, acc := s.acc + x } else s
+    let row := [x, p, s.n, seed] ++ (if mode = 0 then [] else match σ1 with | some k => [k] | none => [])
+    let σ2 := if mode = 0 then σ1 else none
+    if vfail = some (k + 1) then ((.error .raised, s'), σ2) else toyLoopP learn mode vfail seed xs (k + 1) s' σ2 (row :: rows)
+
+def toyEvalP (env : ToyEnv) (val : ToyVal) (σ : ToyG) (s : ToyS) (seed : Nat) : (Except Err (List Row) × ToyS) × ToyG :=
+  if val.failAt = some 0 then ((.error .raised, s), σ) else
+  if val.skip = some s.mult then ((.ok [], s), σ) else
+  let σ0 := if val.mode = 1 then none else σ
+  let r := toyLoopP val.learn val.mode val.failAt seed env.data 0 s σ0 []
+  match r.1.1 with
+  | .ok rows => if env.fails then ((.error .raised, r.1.2), r.2) else ((.ok rows, r.1.2), r.2)
+  | .error e => ((.error e, r.1.2), r.2)
+
+def mkCompsP (envs : List ToyEnv) (lrns : List ToyLrn) (vals : List ToyVal) : CompsP ToyG ToyS String Row :=
+  { envParams := fun e => toParams ((envs.getD e dfltEnv).params)
+    lrnParams := fun l => toParams ((lrns.getD l ⟨dfltS, none, true⟩).params)
+    valParams := fun v => toParams ((vals.getD v dfltVal).params)
+    chunkKey := fun e => (envs.getD e dfltEnv).chunk
+    init := fun l => (lrns.getD l ⟨dfltS, none, true⟩).init
+    valSeed := fun v => (vals.getD v dfltVal).seed
+    copyable := fun l => (lrns.getD l ⟨dfltS, none, true⟩).copyable
+    σ0 := none
+    evalP := fun σ v e s seed => toyEvalP (envs.getD e dfltEnv) (vals.getD v dfltVal) σ s seed }
 
 def parseEnv (j : Json) : Except String ToyEnv := do
   pure { data := ← natList (← field j "data"), fails := ← bool (← field j "fails"),
@@ -80,13 +122,15 @@ def parseEnv (j : Json) : Except String ToyEnv := do
 
 def parseLrn (j : Json) : Except String ToyLrn := do
   pure { init := { mult := ← nat (← field j "mult"), fp := ← opt nat (fieldD j "fp" Json.null),
-                   fl := ← opt nat (fieldD j "fl" Json.null), n := 0, acc := 0 },
-         params := ← opt str (fieldD j "params" Json.null) }
+                   fl := ← opt nat (fieldD j "fl" Json.null), n := 0, acc := 0,
+                   tag := ← nat (fieldD j "tag" (ofNat 0)), info := ← bool (fieldD j "info" (Json.bool false)) },
+         params := ← opt str (fieldD j "params" Json.null),
+         copyable := ← bool (fieldD j "copyable" (Json.bool true)) }
 
 def parseVal (j : Json) : Except String ToyVal := do
   pure { seed := ← opt nat (fieldD j "seed" Json.null), failAt := ← opt nat (fieldD j "fail_at" Json.null),
          learn := ← bool (← field j "learn"), params := ← opt str (fieldD j "params" Json.null),
-         skip := ← opt nat (fieldD j "skip_mult" Json.null) }
+         skip := ← opt nat (fieldD j "skip_mult" Json.null), mode := ← nat (fieldD j "mode" (ofNat 0)) }
 
 def parseTriple (j : Json) : Except String Triple := do
   match ← natList j with
@@ -110,25 +154,52 @@ def taskJson : Task → Json
   | .val i v => Json.arr #[Json.str "V", ofNat i, ofNat v]
   | .eval ei e li l vi v c => Json.arr #[Json.str "I", ofNat ei, ofNat li, ofNat vi, ofNat e, ofNat l, ofNat v, Json.bool c]
 
-/-- request: {"seed","envs","lrns","vals","triples","cfg":[mp,mc,mt],"picks"} -/
+def parseCfg (j : Json) : Except String Cfg := do
+  match ← natList j with
+  | [mp, mc, mt] => pure ({ mp := mp, mc := mc, mt := mt } : Cfg)
+  | _ => throw "cfg expected"
+
+def toyGJson : ToyG → Json
+  | some k => ofNat k
+  | none => Json.null
+
+/-- request: {"seed","envs","lrns","vals","triples","cfg":[mp,mc,mt],"picks","assign",
+             "pre": null | {"seed","cfg","assign","picks"}}.
+`model` is `runPFrom` (process-state model; started in the state an earlier run of the session left
+behind when `pre` is given), `spec` is `resultSP`, `hyp` says whether the toy components are
+process-local clean (no evaluator flushes the info channel without clearing it first);
+`model_plain` is the σ-free `run` of phase 1 (it ignores the info channel and copyability). -/
 def handle (req : Json) : Except String Json := do
   let seed ← nat (← field req "seed")
   let envs ← (← arr (← field req "envs")).mapM parseEnv
   let lrns ← (← arr (← field req "lrns")).mapM parseLrn
   let vals ← (← arr (← field req "vals")).mapM parseVal
   let triples ← (← arr (← field req "triples")).mapM parseTriple
-  let cfg ← match ← natList (← field req "cfg") with
-    | [mp, mc, mt] => pure ({ mp := mp, mc := mc, mt := mt } : Cfg)
-    | _ => throw "cfg expected"
+  let cfg ← parseCfg (← field req "cfg")
   let picks ← natList (fieldD req "picks" (Json.arr #[]))
+  let assign ← natList (fieldD req "assign" (Json.arr #[]))
+  let sched : Sched := { assign := assign, picks := picks }
+  let cp := mkCompsP envs lrns vals
+  let pre := fieldD req "pre" Json.null
+  let σstart ← if pre.isNull then pure cp.σ0 else do
+    let pseed ← nat (← field pre "seed")
+    let pcfg ← parseCfg (← field pre "cfg")
+    let psched : Sched := { assign := ← natList (fieldD pre "assign" (Json.arr #[])), picks := ← natList (fieldD pre "picks" (Json.arr #[])) }
+    pure (stateAfter cp pcfg psched pseed cp.σ0 triples)
+  let evs := runEventsPFrom cp cfg sched seed σstart triples
+  let heap := (List.range lrns.length).map (fun l => Json.arr #[ofNat (evs.2.2 l).n, ofNat (evs.2.2 l).acc])
   let c := mkComps envs lrns vals
-  let evs := runEvents c cfg picks seed triples
-  let heap := (List.range lrns.length).map (fun l => Json.arr #[ofNat (evs.2 l).n, ofNat (evs.2 l).acc])
-  pure (obj [("model", resultJson (run c cfg picks seed triples)),
-             ("spec", resultJson (resultS c seed triples)),
-             ("log", ofList taskJson (runLog c cfg picks seed triples)),
+  let hyp := vals.all (fun v => v.mode != 2)
+  pure (obj [("model", resultJson (runPFrom cp cfg sched seed σstart triples)),
+             ("spec", resultJson (resultSP cp seed triples)),
+             ("hyp", Json.bool hyp),
+             ("log", ofList taskJson (evs.1.filterMap Ev.err?)),
              ("heap", Json.arr heap.toArray),
+             ("sigma", toyGJson evs.2.1),
              ("multi", Json.bool cfg.multi),
-             ("chunks", ofList (ofList taskJson) (chunksOf c cfg triples))])
+             ("chunks", ofList (ofList taskJson) (chunksOfP cp cfg triples)),
+             ("lives", ofList (ofList (ofList taskJson)) (retire cfg.mc (livesOf assign (chunksOfP cp cfg triples)))),
+             ("model_plain", resultJson (run c cfg picks seed triples)),
+             ("spec_plain", resultJson (resultS c seed triples))])
 
 end Coba.C01.Driver
